@@ -49,8 +49,17 @@ func (g *Gen) emitDet(e Ev) Ev {
 // totality sweep: every entry point on raw random bit patterns and extreme scalars
 func (g *Gen) totalCall() Ev {
 	x := rawDec(g.r.Uint64(), g.r.Uint64())
-	if g.r.Intn(3) == 0 {
+	switch g.r.Intn(4) {
+	case 0:
 		x = randAny(g.r)
+	case 1: // stored exponents at the edges of the implementation's power-of-ten tables and word sizes
+		e := []int{-41, -40, -39, -38, -37, -36, -35, -34, -33, -20, -19, -18, -17, -1, 0, 1, 17, 18, 19, 20, 33, 34, 35, 36, 37, 38, 39, 40, 41,
+			eMin, eMin + 1, eMax - 1, eMax}[g.r.Intn(33)]
+		c := randCoef(g.r)
+		if g.r.Intn(3) == 0 {
+			c = big.NewInt(int64(g.r.Intn(3)))
+		}
+		x = mk(g.r.Intn(2) == 0, c, e)
 	}
 	y := rawDec(g.r.Uint64(), g.r.Uint64())
 	if g.r.Intn(3) == 0 {
@@ -144,10 +153,14 @@ func (g *Gen) totalCall() Ev {
 			e = Ev{"op": "UnmarshalJSON", "s": ints(b)}
 			e.setDec("prev", x)
 		case 2:
-			b := make([]byte, g.r.Intn(70))
-			g.r.Read(b)
-			e = Ev{"op": "Compose", "form": g.r.Intn(256), "neg": g.r.Intn(2) == 0, "sig": ints(b), "exp": int(int32(g.r.Uint32()))}
-			e.setDec("prev", x)
+			if g.r.Intn(2) == 0 {
+				b := make([]byte, g.r.Intn(70))
+				g.r.Read(b)
+				e = Ev{"op": "Compose", "form": g.r.Intn(256), "neg": g.r.Intn(2) == 0, "sig": ints(b), "exp": int(int32(g.r.Uint32()))}
+				e.setDec("prev", x)
+			} else { // structured coefficients: long, reducible by powers of ten (the reduction paths)
+				e = g.composeCall([]int{0, 16, 17, 32, 33, 40, 64}, []int{-6176, -40, 0, 40, 6111, math.MinInt32, math.MaxInt32})
+			}
 		case 3:
 			e = Ev{"op": "New", "sig": bigNInt(int64(g.r.Uint64()))}
 			setInt(e, "exp", extreme[g.r.Intn(len(extreme))])
